@@ -129,7 +129,7 @@ def plan(pid, tier, seed):
                 nf = rng.choice([0, 0, 0, 1, 2])
                 st = gen.flush_history(rng, calls, cfg, faults=nf) if rng.random() < 0.5 else gen.purge_history(rng, calls, cfg, faults=nf)
                 out.append(dict(mode=rng.choice(["free", "jitter"]), tag="crashprobe", steps=st,
-                                probes={"crash": {"stride": 1 if q else 1, "per_pos": 6 if q else 16, "cont": True,
+                                probes={"crash": {"stride": 1 if q else 1, "per_pos": 6 if q else 10, "cont": True,
                                                   "bytes": not q, "gen2": gen2}}))
             return out
         P["gen"].append(g)
@@ -147,6 +147,8 @@ def plan(pid, tier, seed):
         mc("MC_Seq", "MC_C01_q.cfg" if q else "MC_C01_t.cfg", 1200 if q else 12000, add_reads)
         # the oracle itself: structural invariants and read semantics of the reference log (no replay)
         mc("MCRef", "MC_Ref.cfg", 0, export=False)
+        # zero-length payloads (blank entries)
+        mc("MC_Seq", "MC_C01z_q.cfg", 300 if q else 3000, add_reads)
         histories(60 if q else 600, 40 if q else 150, dict(flush=0.3, reads=0.5, iter=0.1, reopen=0.05, big=True), rb=True)
         P["need"] = dict(accepted=100, reads=100)
     elif pid == "C02":
@@ -190,7 +192,7 @@ def plan(pid, tier, seed):
                pick=lambda behs, cap, r: r.sample([b for b in behs if any(st["a"] == "crash_in_open" for st in b)] or behs,
                                                   min(cap, len([b for b in behs if any(st["a"] == "crash_in_open" for st in b)] or behs))),
                timeout=900 if q else 3000)
-        crash_runs(36 if q else 400, 14 if q else 40, gen2=(pid == "C05"))
+        crash_runs(36 if q else (150 if pid == "C03" else 100), 14 if q else 30, gen2=(pid == "C05"))
         P["need"] = dict(probes=3000, crashes=500)
     elif pid in ("C09", "C10"):
         mc("MC_Seq", ("MC_%s_q.cfg" if q else "MC_%s_t.cfg") % pid, 300 if q else 2000, timeout=900 if q else 3000)
@@ -198,14 +200,14 @@ def plan(pid, tier, seed):
 
         def g():
             out = []
-            for k in range(32 if q else (64 if kind == "damage" else 300)):
+            for k in range(32 if q else (48 if kind == "damage" else 200)):
                 cfg = gen.cfg_choices(rng)
                 if rng.random() < 0.25:
                     cfg = {}
                 st = gen.random_history(rng, rng.choice([3, 6, 10, 16]) if q else rng.choice([5, 10, 20, 40]), cfg,
                                         dict(flush=0.4, sync_wait=1.0, final_reopen=False, big=not q))
-                # thorough: every byte of images up to ~1 kB x all 8 bit flips + 0x00 + 0xFF + a random value
-                opts = {"max_pos": 70 if q else 1000, "all_bits": not q} if kind == "damage" else {"max_cuts": 50 if q else 100000, "all_cuts": not q}
+                # thorough: every byte of images up to ~0.8 kB x all 8 bit flips + 0x00 + 0xFF + a random value
+                opts = {"max_pos": 70 if q else 800, "all_bits": not q} if kind == "damage" else {"max_cuts": 50 if q else 100000, "all_cuts": not q}
                 out.append(dict(mode="free", tag="image:" + kind, steps=st, probes={kind: opts}))
             return out
         P["gen"].append(g)
@@ -242,19 +244,22 @@ def plan(pid, tier, seed):
 
         def g():
             out = []
-            for k in range(80 if q else 800):
+            for k in range(80 if q else 400):
                 cfg = gen.cfg_choices(rng, True)
                 out.append(dict(mode="jitter", tag="cache", steps=gen.cache_history(rng, 25 if q else 60, cfg, readers=True)))
             return out
         P["gen"].append(g)
         # reads on a store recovered from a crash image, under small cache limits
         mc("MC_Conc", "MC_C07crash_q.cfg" if q else "MC_C07crash_t.cfg", 400 if q else 4000, add_obs, pick=pick_recovering)
-        crash_runs(12 if q else 150, 12 if q else 30, small_cache=1.0)
+        crash_runs(12 if q else 60, 12 if q else 30, small_cache=1.0)
+        # zero-length payloads: an item of the cache that weighs nothing
+        mc("MC_Conc", "MC_C07z_q.cfg", 300 if q else 3000, add_obs)
         P["need"] = dict(obs=1000, reads=200)
     elif pid == "C15":
         def post(steps, r):
             return add_obs(steps, r) + [{"a": "wait_idle"}, {"a": "drain"}]
         mc("MC_Conc", "MC_C07_q.cfg" if q else "MC_C07_t.cfg", 1000 if q else 8000, post)
+        mc("MC_Conc", "MC_C07z_q.cfg", 300 if q else 3000, post)
 
         def g():
             out = []
